@@ -1,5 +1,6 @@
 import Driver.OpsBits
 import Driver.OpsTemplate
+import Driver.OpsIeee
 /-
   bvp_lean — line-protocol driver: one operation per input line, one canonical
   result line per operation, computed by the *model*.  Each model area has its own
@@ -11,6 +12,7 @@ open Bufr Drv
 structure St where
   bits : BitsSt := {}
   tm : TmplSt := {}
+  ieee : IeeeSt := {}
 
 def step (st : St) (line : String) : St × String :=
   let toks := (line.trimAscii.toString.splitOn " ").filter (· ≠ "")
@@ -20,6 +22,9 @@ def step (st : St) (line : String) : St × String :=
   | none =>
   match stepTemplate st.tm toks with
   | some (s, o) => ({ st with tm := s }, o)
+  | none =>
+  match stepIeee st.ieee toks with
+  | some (s, o) => ({ st with ieee := s }, o)
   | none => (st, "bad-op")
 
 partial def loop (h : IO.FS.Stream) (out : IO.FS.Stream) (st : St) : IO Unit := do
